@@ -279,6 +279,29 @@ def ob_cap_float(kind):
                       bounds='every double dot product within 2^-50 of [-1, 1] (centre: of 1), every double cm with %s|cm| <= 2' % ('2^-40 <= ' if kind == 'centre' else ''))
 
 
+def ob_angles_int():
+    """RA/Dec given as an integer-typed array (whole degrees) must give the vectors of the same angles as floats"""
+    def fn(ctx):
+        from pydl.pydlutils.mangle import angles_to_x
+        from pathsym.core import Z
+        _install(ctx)
+        try:
+            ra, dec = ctx.int('ra', 0, 359), ctx.int('dec', -89, 89)
+            d = {'fn': 'angles_int'}
+            ctx.detail = d
+            ctx.ints_as_Z = True
+            pts_int = np.empty((1, 2), dtype=object)
+            pts_int[0, 0], pts_int[0, 1] = Z(ra.v), Z(dec.v)
+            xi = angles_to_x(pts_int, latitude=True)
+            xf = angles_to_x(symnp.rarray([[R(z3.ToReal(ra.v)), R(z3.ToReal(dec.v))]]), latitude=True)
+            for k in range(3):
+                ctx.require(zt(R.lift(xi[0, k])) == zt(R.lift(xf[0, k])), 'angles_to_x: integer-typed RA/Dec give the same unit vector as the same angles in floating point',
+                            dict(d, k=k))
+        finally:
+            _uninstall()
+    return Obligation('angles_to_x integer RA/Dec', fn, bounds='every whole-degree RA in [0, 360) and Dec in (-90, 90)', solver_timeout_ms=60000)
+
+
 def ob_polygon(ncaps, npoints, radec, ncaps_arg):
     def fn(ctx):
         from pydl.pydlutils.mangle import ManglePolygon, is_in_polygon
@@ -416,7 +439,7 @@ def ob_use_caps(ncaps, index_list, add):
 
 def obligations(tier, seed):
     q = tier == 'quick'
-    obs = [ob_cap(False), ob_cap(True), ob_cap_float('centre'), ob_cap_float('nan')]
+    obs = [ob_cap(False), ob_cap(True), ob_cap_float('centre'), ob_cap_float('nan'), ob_angles_int()]
     obs.append(ob_polygon(0, 1, False, 0))
     obs.append(ob_polygon(1, 1, False, 0))
     obs.append(ob_polygon(2, 1, False, 0))
@@ -508,6 +531,12 @@ def replay(rec):
             return False
         got = bool(is_in_cap(x, cm, p.reshape(1, 3))[0])
         return got != _in_cap_float(x, cm, p)
+    if fn == 'angles_int':
+        from pydl.pydlutils.mangle import angles_to_x
+        ra, dec = int(inp.get('ra', 10)), int(inp.get('dec', 20))
+        xi = angles_to_x(np.array([[ra, dec]]), latitude=True)
+        xf = angles_to_x(np.array([[float(ra), float(dec)]]), latitude=True)
+        return bool(np.abs(xi.astype(float) - xf).max() > 1e-12)
     if fn == 'cap_float':
         from pathsym.fp import from_bits
         from pydl.pydlutils.mangle import cap_distance
